@@ -613,7 +613,7 @@ class ndarray:  # noqa: F811
 
 
 def _arraylike(x):
-    if isinstance(x, (ndarray, SV, I, Q, F, bool, int, float, Fraction, list, tuple, z3.ExprRef)):
+    if isinstance(x, (ndarray, SV, I, Q, F, bool, int, float, Fraction, list, tuple, z3.ExprRef, str)):
         return True
     try:
         import numpy as _np
